@@ -68,3 +68,66 @@ package protocol
 //@   modifies hdr
 
 //@ lemma RESP_RT C10: forall(rx, 0 <= rx && rx <= 18446744073709551615 ==> decRx(encRx(false, rx)) == rx && !decAuto(encRx(false, rx))) && decAuto(encRx(true, 0)) && decUDP(fmtBool(true)) && !decUDP(fmtBool(false))
+
+// ---------------------------------------------------------------------------
+// Wire codec (C04, C05, C03). Byte sources follow the A-IO model of
+// /verif/contracts/extern/io.spec.
+
+// b[o:] starts with the minimal-width QUIC varint encoding of i
+//@ spec func vputAt(b, o, i) = ite(i <= 63, b[o] == i,
+//@     ite(i <= 16383, b[o] == (i>>8) + 64 && b[o+1] == i%256,
+//@     ite(i <= 1073741823, b[o] == (i>>24) + 128 && b[o+1] == (i>>16)%256 && b[o+2] == (i>>8)%256 && b[o+3] == i%256,
+//@         b[o] == (i>>56) + 192 && b[o+1] == (i>>48)%256 && b[o+2] == (i>>40)%256 && b[o+3] == (i>>32)%256
+//@         && b[o+4] == (i>>24)%256 && b[o+5] == (i>>16)%256 && b[o+6] == (i>>8)%256 && b[o+7] == i%256)))
+
+//@ func varintPut
+//@   props C04 C05 C03 C15
+//@   requires i <= 4611686018427387903 && len(b) >= vlen(i)
+//@   ensures ret == vlen(i) && vputAt(b, 0, i)
+//@   modifies b[0:vlen(i)]
+
+// the same predicate over an abstract byte array (lemma VARINT_RT: what varintPut writes is what quicvarint.Read decodes)
+//@ uf arrD(Int) Int
+//@ spec func dputAt(o, i) = ite(i <= 63, arrD(o) == i,
+//@     ite(i <= 16383, arrD(o) == (i>>8) + 64 && arrD(o+1) == i%256,
+//@     ite(i <= 1073741823, arrD(o) == (i>>24) + 128 && arrD(o+1) == (i>>16)%256 && arrD(o+2) == (i>>8)%256 && arrD(o+3) == i%256,
+//@         arrD(o) == (i>>56) + 192 && arrD(o+1) == (i>>48)%256 && arrD(o+2) == (i>>40)%256 && arrD(o+3) == (i>>32)%256
+//@         && arrD(o+4) == (i>>24)%256 && arrD(o+5) == (i>>16)%256 && arrD(o+6) == (i>>8)%256 && arrD(o+7) == i%256)))
+//@ spec func dbe2(p) = arrD(p)*256 + arrD(p+1)
+//@ spec func dbe4(p) = arrD(p)*16777216 + arrD(p+1)*65536 + arrD(p+2)*256 + arrD(p+3)
+//@ spec func dval(p) = ite(arrD(p) < 64, arrD(p), ite(arrD(p) < 128, dbe2(p) - 16384, ite(arrD(p) < 192, dbe4(p) - 2147483648, dbe4(p)*4294967296 + dbe4(p+4) - 13835058055282163712)))
+//@ lemma VARINT_RT C04 C05: forall(o, forall(i, 0 <= i && i <= 4611686018427387903 && dputAt(o, i) ==> vw(arrD(o)) == vlen(i) && dval(o) == i))
+
+// Serialize: -1 and nothing written when the buffer is too small; otherwise exactly
+// Size() bytes: header fields big-endian, minimal varint address length, address, payload.
+//@ func (*UDPMessage).Serialize
+//@   props C05 C03 C15
+//@   requires base(buf) != base(m.Data)
+//@   ensures len(buf) < hdr(m) + len(m.Data) ==> ret == -1 && forall(k, 0, len(buf), buf[k] == old(buf[k]))
+//@   ensures len(buf) >= hdr(m) + len(m.Data) ==> ret == hdr(m) + len(m.Data)
+//@       && buf[0] == m.SessionID>>24 && buf[1] == (m.SessionID>>16)%256 && buf[2] == (m.SessionID>>8)%256 && buf[3] == m.SessionID%256
+//@       && buf[4] == m.PacketID>>8 && buf[5] == m.PacketID%256 && buf[6] == m.FragID && buf[7] == m.FragCount
+//@       && vputAt(buf, 8, len(m.Addr))
+//@       && forall(k, 0, len(m.Addr), buf[8 + vlen(len(m.Addr)) + k] == m.Addr[k])
+//@       && forall(k, 0, len(m.Data), buf[hdr(m) + k] == m.Data[k])
+//@   modifies buf[0:len(buf)]
+
+// ParseUDPMessage: total (never panics). It succeeds exactly when the input holds
+// the 8 fixed bytes, a complete varint address length in 1..2048, that many
+// address bytes and at least one payload byte; then the fields are the decoded
+// header and Data is the tail of the input slice itself (no copy).
+//@ spec func sbe2(b, p) = b[p]*256 + b[p+1]
+//@ spec func sbe4(b, p) = b[p]*16777216 + b[p+1]*65536 + b[p+2]*256 + b[p+3]
+//@ spec func sval(b, p) = ite(b[p] < 64, b[p], ite(b[p] < 128, sbe2(b, p) - 16384, ite(b[p] < 192, sbe4(b, p) - 2147483648, sbe4(b, p)*4294967296 + sbe4(b, p+4) - 13835058055282163712)))
+//@ spec func udpOK(msg) = len(msg) >= 9 && len(msg) >= 8 + vw(msg[8]) && sval(msg, 8) >= 1 && sval(msg, 8) <= 2048 && len(msg) > 8 + vw(msg[8]) + sval(msg, 8)
+//@ func ParseUDPMessage
+//@   props C05 C03 C15 C17
+//@   ensures isnil(ret1) == udpOK(msg)
+//@   ensures !isnil(ret1) ==> ret0 == nil
+//@   ensures isnil(ret1) ==> ret0 != nil && fresh(ret0)
+//@   ensures isnil(ret1) ==> ret0.SessionID == sbe4(msg, 0) && ret0.PacketID == sbe2(msg, 4) && ret0.FragID == msg[6] && ret0.FragCount == msg[7]
+//@   ensures isnil(ret1) ==> len(ret0.Addr) == sval(msg, 8)
+//@   ensures isnil(ret1) ==> forall(k, 0, len(ret0.Addr), ret0.Addr[k] == msg[8 + vw(msg[8]) + k])
+//@   ensures isnil(ret1) ==> base(ret0.Data) == base(msg) && off(ret0.Data) == off(msg) + 8 + vw(msg[8]) + sval(msg, 8)
+//@   ensures isnil(ret1) ==> len(ret0.Data) == len(msg) - 8 - vw(msg[8]) - sval(msg, 8)
+//@   modifies rpos, rlen, rdata, rbase, roff
